@@ -93,12 +93,24 @@ inductive DeTarget where
   | hip (kind : HipKind) (entry : Entry)
   deriving DecidableEq, Repr, Inhabited
 
-/-- One `impl Deserialize for Hip…` or one `pub fn borrow_deserialize`. -/
+/-- One `impl Deserialize for Hip…` or one `pub fn borrow_deserialize`.
+`overridesInPlace` = the impl also defines `deserialize_in_place` (serde's default is
+`*place = Self::deserialize(d)?`); its body is not modelled. -/
 structure DeRow where
   kind   : HipKind
   entry  : Entry
   target : DeTarget
+  overridesInPlace : Bool
   loc    : String
+  deriving DecidableEq, Repr, Inhabited
+
+/-- An `impl Visitor` whose `Value` is not a Hip type (e.g. `type Value = ()` of an in-place
+visitor): recorded with the `visit_*` methods it defines, NOT interpreted by the model. -/
+structure AuxVisitorRow where
+  name    : String
+  value   : String
+  methods : List String
+  loc     : String
   deriving DecidableEq, Repr, Inhabited
 
 /-- What `Serialize::serialize` calls. -/
@@ -143,23 +155,49 @@ inductive BorshDe where
   | viaBytThenValidate
   /-- `HipByt::deserialize_reader(r)?` then `from_utf8_unchecked`: no validation. -/
   | viaBytUnchecked
+  /-- a body that matches no template (its I/O calls are still listed in the row). -/
+  | other
   deriving DecidableEq, Repr, Inhabited
 
 /-- Shape of `impl BorshSerialize`. -/
 inductive BorshSer where
   /-- `self.as_slice().serialize(w)` / `self.as_bytes().serialize(w)`: borsh's `[u8]` encoding. -/
   | sliceU8
+  /-- a body that matches no template (its I/O calls are still listed in the row). -/
+  | other
   deriving DecidableEq, Repr, Inhabited
 
+/-- One use of the `reader`/`writer` parameter in a borsh impl body.
+* `delegate what`  — handed to another borsh impl (`u32::deserialize_reader(reader)`,
+                     `self.as_slice().serialize(writer)`): exactness is that impl's business
+                     (borsh's primitives use `read_exact`/`write_all`);
+* `readExact`/`writeAll` — the all-or-error calls;
+* `read`/`write`   — the raw calls, which may legally transfer fewer bytes than asked;
+* `other name`     — any other method or a function the parameter is passed to. -/
+inductive IoCall where
+  | delegate (what : String)
+  | readExact
+  | read
+  | writeAll
+  | write
+  | other (name : String)
+  deriving DecidableEq, Repr, Inhabited
+
+/-- `io` = every use of the reader in the body, in source order; `usesUnsafe` = the body
+contains an `unsafe` block. -/
 structure BorshDeRow where
   kind  : HipKind
   shape : BorshDe
+  io    : List IoCall
+  usesUnsafe : Bool
   loc   : String
   deriving DecidableEq, Repr, Inhabited
 
 structure BorshSerRow where
   kind  : HipKind
   shape : BorshSer
+  io    : List IoCall
+  usesUnsafe : Bool
   loc   : String
   deriving DecidableEq, Repr, Inhabited
 
